@@ -22,28 +22,28 @@ P = {
          "Exact for all lengths x 12 (mode, level) and forced versions, relative to the encoders emitting the bit counts the capacity formula assumes (widths decided by C06 rules)."),
  "C06": ("other", "DESIGN.md 3/C06", PE + " of push_bits/push_u8 on symbolic words (bit-vector domain) and of encode() with a symbolic payload (affine value expressions with ranges): data codewords = ISO 7.4 stream bit for bit + table folding of count widths and value tables",
          "Exact for the stated (mode, version, level, length) cells (quick 252, thorough ~5 000) and all payload contents in the mode's alphabet; lengths between the sampled residues/boundaries follow from the uniform loop body, which is not separately proved."),
- "C07": ("other", "DESIGN.md 3/C07", "GF(256) table and generator recomputation from the definition + buffer obligations over 160 cells + skip-set of the division step over all 256 byte values + one-step polynomial algebra + exact placement of the remainder in the codeword sequence (C02.R4)",
-         "Tables, generators, the step and its zero-skip exact; that iterating the step yields the remainder for every content is not decided."),
+ "C07": ("other", "DESIGN.md 3/C07 + 7.2/7.3", "GF(256) table and generator recomputation from the definition + " + PE + " of polynomials::division with the crate's own generators on the single-nonzero-byte basis (all 255 values at the last position, spread values at first/middle), zero-run and fixed dense blocks + buffer obligations over 160 cells + skip-set of the step over all 256 byte values + one-step polynomial algebra + exact placement of the remainder in the codeword sequence (C02.R4)",
+         "Tables, generators, the division on the stated basis and samples (shortest and longest block length per degree; all lengths thorough) exact; additivity over all 256^k contents follows from the uniform xor step (read by C07.R2 when the loop is written with indices) and is not proved here."),
  "C08": ("other", "DESIGN.md 3/C08 + 7", PE + " of the eight sweeps on symbolic module values (toggled set = ISO Table 10 at every coordinate, value-independent by construction; quick V01-V10, thorough all 40) + edge-dominance guard rule + single-source rule for the mask",
          "Exact toggle sets and untouched function modules for every payload; the mask applied is the mask recorded."),
  "C09": ("other", "DESIGN.md 3/C09", "exhaustive folding of classifier and value tables over 256 bytes + " + PE + " of best_encoding over every class pattern up to length 7/8 + origin analysis of the mode",
          "Classifier and its agreement with the encoder exact for all byte values; the scan exact for all class patterns of short inputs (the property's own quantifier); long inputs follow from the uniform loop."),
  "C10": ("other", "DESIGN.md 3/C10", "capacity decision tree + QRCode::new outcome table + buffer-size obligations + accounted panic sites + panic-freedom of the configuration-determined code by " + PE + " + compile witness",
          "Decides the anchored mechanisms (gate, buffers, error type) and that drawing, masking, placement, interleaving and format writing cannot panic for any of the configurations; value-range proofs of the remaining compiler-inserted asserts are declined."),
- "C11": ("other", "DESIGN.md 3/C11", "data-dependence slices, control-dependence (edge dominance), reaching definitions across the loop back edge (candidate freshness) and origin analysis over the selection loop + scorer constants",
-         "Reports the known finding D1 (column penalties computed on an unmasked copy); scorers' arithmetic only as far as the rules name."),
+ "C11": ("other", "DESIGN.md 3/C11 + 7.2", PE + " of place_on_matrix with summarised stages and an oracle for the penalties (selection semantics) + " + PE + " of the four penalty terms on complete small domains (every line of up to 11 data modules and every mixed-label line up to 6, every 2x2 symbol and 3x3 families, every dark percentage 0..99, totals on 60 8x8 symbol pairs) against a model written from the property + data-dependence slices, edge dominance, reaching definitions across the loop back edge (candidate freshness) + scorer constants",
+         "Reports the known finding D1 (column penalties computed on an unmasked copy). Selection exact; penalty terms exact on the stated small domains, longer lines and larger symbols follow from the uniform loop bodies (not separately proved)."),
  "C12": ("other", "DESIGN.md 3/C12", "forward taint with decision-table-recognised sanitiser + format-template decoding + " + PE + " of SvgBuilder::to_str with symbolic module values (one sub-path slot per module, taken iff dark, anchored in the cell, per layer) + dominance/must-pass-through rules",
          "Exact for every matrix content on 40 (version, margin, layer program) configurations (160 thorough); RGBA colours and the image string; free-form colour strings are outside the property; XML parsers are not run."),
  "C13": ("other", "DESIGN.md 3/C13", "sibling-agreement rule over 11 forwarding methods + decision-table folding of the FitTo match + origin analysis + the SVG skeleton rules of C12",
          "Option plumbing and the rasterised document's skeleton only: pixel values come from resvg/tiny-skia whose bodies are not local MIR."),
- "C14": ("proof", "DESIGN.md 3/C14", "crate-wide fact enumeration (statics, unsafe, type graph, signatures, call-graph deny-list, setter effects) + Send/Sync and borrow witnesses",
-         "Proof modulo: std deterministic, resvg without global state; zero-count rules are exercised on a positive fixture every run."),
+ "C14": ("proof", "DESIGN.md 3/C14 + 7.2", "crate-wide fact enumeration (statics, unsafe, type graph through local and dependency type definitions, signatures, call-graph deny-list) + setter algebra by " + PE + " (last value wins, pairwise commutation, build hands on the final values) + Send/Sync and borrow witnesses",
+         "Proof modulo: std deterministic, resvg without global state; zero-count rules are exercised on a positive fixture every run; the setter identities are evaluated with two distinct values per parameter (the setter bodies do not branch on the values, else the evaluation abstains)."),
  "C15": ("other", "DESIGN.md 3/C15 + 7", "exhaustive folding of the label encoding + " + PE + " of blank symbol, format writer and placement against the ISO region map + guarded-write rule + callback-argument rule + witnesses",
          "Every module's label for all 40 versions, preserved by every later writer; the module handed to shape callbacks is the one at (row, column)."),
  "C16": ("other", "DESIGN.md 3/C16 + 7", PE + " of the terminal renderer with symbolic module values and symbolic-branch merging (every glyph as a decision table over the two modules in place; quick 8 sizes incl. V39/V40, thorough 40) + no-static rule",
          "The produced text is decided glyph by glyph for every matrix content; a renderer outside the evaluator's language is an abstention."),
- "C17": ("other", "DESIGN.md 3/C17", "host-compiled MIR of wasm.rs under a cfg hook: trap-call scan, same-vector length-guard dominance, field-length invariant, forwarding table",
-         "wasm-bindgen glue and the wasm32 target are not compiled here; equality with native output follows from forwarding, not from comparing strings."),
+ "C17": ("other", "DESIGN.md 3/C17 + 7.2", "host-compiled MIR of wasm.rs under a cfg hook: " + PE + " of SvgOptions::new, 97 setter programs and qr_svg/qr with QRCode::new and to_str summarised, compared field by field with the native builder evaluated by the same engine + trap-call scan, same-vector length-guard dominance, field-length invariant, forwarding table (all inputs)",
+         "wasm-bindgen glue and the wasm32 target are not compiled here; option values are a stated list of well-formed, malformed and partial programs, not all strings; the all-input clauses (no trap call, guarded indexing, field lengths) are shape rules."),
  "C18": ("other", "DESIGN.md 3/C18 + 7", PE + " of SvgBuilder::image: frame and image rectangles as numbers for 40 versions x 3 shapes x margins 0..16 (exhaustive for defaults) and a lattice of size/gap/position overrides + folding of image_placement + x/y symmetry",
          "Default placement exact on the property's own finite domain; real-valued overrides are decided on a stated lattice only."),
  "C19": ("other", "DESIGN.md 3/C19", "error-discipline rule (consumer classification of every io::Result) + dominance of Ok + provenance of written bytes + buffered-writer flush rule + witness",
@@ -83,7 +83,7 @@ def main():
         "engines": [
             {"name": "fqr-facts", "path": "driver/", "serves_properties": sorted(P), "kind_free_text": "rustc_private driver: dumps resolved MIR, evaluated constants, ADTs, statics, impls, user-written unsafe as JSON per configuration"},
             {"name": "fqrlint", "path": "fqrlint/", "serves_properties": sorted(P), "kind_free_text": "Python rule engine over the facts: CFG/dominators/edge-dominance, reaching definitions, origins, canonical expressions, polynomial normal form, forward taint, finite-domain folding, decision-tree extraction"},
-            {"name": "peval", "path": "fqrlint/peval.py", "serves_properties": ["C01", "C02", "C03", "C04", "C05", "C06", "C07", "C08", "C09", "C10", "C12", "C15", "C16", "C18"], "kind_free_text": "partial evaluator over MIR for configuration-determined code: constant propagation with loops unrolled, heap arrays, iterator/Option/Result/String models, closures, symbolic payload bits and bytes, symbolic-branch merging at post-dominators; a branch on anything unknown aborts (abstention)"},
+            {"name": "peval", "path": "fqrlint/peval.py", "serves_properties": ["C01", "C02", "C03", "C04", "C05", "C06", "C07", "C08", "C09", "C10", "C11", "C12", "C13", "C14", "C15", "C16", "C17", "C18"], "kind_free_text": "partial evaluator over MIR for configuration-determined code: constant propagation with loops unrolled, heap arrays, iterator/Option/Result/String models, closures, symbolic payload bits and bytes, symbolic-branch merging at post-dominators; a branch on anything unknown aborts (abstention)"},
             {"name": "witness", "path": "witness/", "serves_properties": ["C04", "C05", "C10", "C14", "C15", "C19"], "kind_free_text": "compile-pass witnesses and compile_fail doctests with compiling twins against the public API"},
             {"name": "fixture", "path": "fixture/", "serves_properties": ["C14", "C17"], "kind_free_text": "positive fixture crate on which the zero-count rules must fire on every run"},
         ],
